@@ -473,11 +473,15 @@ def make_snr(rng, tier):
         pcm = [np.int16, np.int32][(_NS[0] // 4) % 2]
         X = rng.integers(-3000, 3001, size=shape).astype(pcm)
         N = rng.integers(-300, 301, size=shape).astype(pcm)
+    elif _NS[0] % 4 == 1:
+        # single-precision signals (float32 audio buffers), levels inside the float32 range
+        X = (rng.normal(size=shape) * 10.0 ** rng.uniform(-3, 3)).astype(np.float32)
+        N = (rng.normal(size=shape) * 10.0 ** rng.uniform(-3, 3)).astype(np.float32)
     elif _NS[0] % 4 == 2:
         # target and noise need not have the same number of samples / channels when no axis is given (whole-array powers)
         N = rng.normal(size=([1] + shape[1:-1] if nd >= 2 else []) + [int(rng.integers(8, 40))]) * 10.0 ** rng.uniform(-6, 6)
     rp = {'fn': 'snr', 'X': X, 'N': N, 'snr': float(rng.uniform(-30, 30)) if rng.random() < 0.8 else float(rng.integers(-3, 4) * 10),
-          'inplace': bool(rng.random() < 0.5) and pcm is None,
+          'inplace': (bool(rng.random() < 0.5) or (_NS[0] % 8 == 1)) and pcm is None,
           'rowwise': bool(nd >= 2 and rng.random() < 0.3) and N.shape == X.shape}
     fail, key, coq = eval_snr(rp)
     name = 'set_snr/get_snr shape=%s noise shape=%s dtype=%s snr=%.3f inplace=%s rowwise=%s' % (shape, list(N.shape), X.dtype, rp['snr'], rp['inplace'], rp['rowwise'])
@@ -513,16 +517,18 @@ def eval_snr(rp):
     if X.tobytes() != xb:
         return 'set_snr modified the target signal', 'set_snr:mutates-target', None
     coq = None
-    if not rp['rowwise'] and X.shape == N0.shape and X.size <= 200:
+    single = X.dtype == np.float32
+    tol = 1e-4 if single else TOL_DB          # float32: 24-bit products
+    if not rp['rowwise'] and X.shape == N0.shape and X.size <= 200 and not single:
         n = X.size
         coq = 'allR [check_get_snr %s %s %s %s; check_set_snr %s %s %s %s %s]' % (
             natlit(n), core.flist(X.ravel()), core.flist(N0.ravel()), core.fhex(cur),
             natlit(n), core.flist(X.ravel()), core.flist(N0.ravel()), core.fhex(snr), core.flist(np.asarray(N).ravel()))
     px = (X.astype(float) ** 2).sum(**kw) / (X.shape[-1] if rp['rowwise'] else X.size)
     pn = (N0.astype(float) ** 2).sum(**kw) / (N0.shape[-1] if rp['rowwise'] else N0.size)
-    if not _same(cur, 10 * np.log10(px / pn)):
+    if not _same(cur, 10 * np.log10(px / pn), tol):
         return 'get_snr differs from 10 log10(mean X^2 / mean N^2)', 'get_snr:formula', coq
-    if not _same(new, np.full(np.shape(new), snr)):
+    if not _same(new, np.full(np.shape(new), snr), tol):
         return ('get_snr after set_snr(snr=%g) returns %s' % (snr, np.asarray(new).ravel()[:3])), 'set_snr:round-trip', coq
     return None, None, coq
 
